@@ -238,6 +238,20 @@ def check(ctx, run):
             run.fail(Finding("C17.R6", owner_fi.qualname, f"{label}: {why}"[:300], "constant tensor built in the global default dtype reaches a result without a cast to the data's dtype",
                              file=str(prog.modules[owner_fi.module].path), line=owner_fi.node.lineno, case=label))
 
+    def memo_without_dtype(events):
+        """a (key, value) pair remembered on an object (attribute or __dict__ entry) whose value takes its dtype / device from a tensor that the
+        key does not record: after a cast the old-dtype value is handed out again"""
+        bad = []
+        for e in events:
+            v_ = e.get("value")
+            if e["kind"] in ("obj_setattr", "dict_store") and isinstance(v_, tuple) and len(v_) == 2 and isinstance(v_[0], tuple) and isinstance(v_[1], (Op, Sym)):
+                key_, val_ = v_
+                have = {c_.args[0] for c_ in key_ if isinstance(c_, Op) and c_.op == "attr_dtype"}
+                for t_ in walk(val_):
+                    if isinstance(t_, Op) and t_.op == "to" and len(t_.args) == 2 and isinstance(t_.args[1], (Op, Sym)) and t_.args[1] not in have and t_.args[1] not in key_:
+                        bad.append(f"the value remembered under {e.get('attr') or e.get('key')} is cast like {str(t_.args[1])[:40]}, whose dtype is not part of the key")
+        return sorted(set(bad))
+
     for label, mode, ts, make in E.feature_runs(ctx):
         if label.startswith("Empty"):
             continue
@@ -246,6 +260,9 @@ def check(ctx, run):
         for r in interp.explore(get, [ts], {}, self_obj=f):
             if not r["raises"]:
                 judge(f"{label}.get({mode})", get, r["value"], user_callable_ok=label.startswith("Spot"))
+                for why_ in memo_without_dtype(r["events"]):
+                    run.fail(Finding("C17.R6", get.qualname, f"{label}.get({mode}): {why_}"[:300], "a value computed in one dtype is remembered and returned after the instrument was cast to another",
+                                     file=str(prog.modules[get.module].path), line=get.node.lineno, case=f"{label}.get({mode}) memo"))
     for pn in E.PAYOFFS + ["european_forward_start_payoff", "realized_variance", "realized_volatility"]:
         fi = E.functional(ctx, pn)
         names = [a.arg for a in fi.node.args.args]
